@@ -147,6 +147,8 @@ class Interp:
             if not 0 <= i[1] < n:
                 raise RuntimeErr("index %d out of bounds for length %d" % (i[1], n))
             return (arr[0][:-2], arr[1][i[1]])
+        if k in ("pcall", "pidx"):
+            return self.ev(({"pcall": "call", "pidx": "idx"}[k],) + tuple(e[1:]), env)      # '(f)(x)', '(a)[i]': grouping parentheses name the same thing
         if k == "call":
             args = [self.ev(a, env) for a in e[2]]
             return self.call(e[1], args)
@@ -293,6 +295,9 @@ class Interp:
                 v = self.ev(init, env)
                 tt = t if "[" not in t else t[:t.index("[")] + "[]"
                 env[-1][name] = self.coerce(tt, v)
+        elif k in ("passign", "paassign"):
+            self.ex(({"passign": "assign", "paassign": "aassign"}[k],) + tuple(s[1:]), env)      # '(x) = v', '(a)[i] = v'
+            return
         elif k == "assign":
             v = self.ev(s[2], env)
             self.assign(env, s[1], self.coerce(self.lookup(env, s[1])[0], v))
@@ -415,6 +420,10 @@ def ex_src(e):
         return "((%s) %s)" % (e[1], ex_src(e[2]))
     if k == "idx":
         return "%s[%s]" % (e[1], ex_src(e[2]))
+    if k == "pcall":
+        return "(%s)(%s)" % (e[1], ", ".join(ex_src(a) for a in e[2]))
+    if k == "pidx":
+        return "(%s)[%s]" % (e[1], ex_src(e[2]))
     if k == "call":
         return "%s(%s)" % (e[1], ", ".join(ex_src(a) for a in e[2]))
     if k == "post":
@@ -436,6 +445,10 @@ def st_src(s, ind="    "):
     if k == "decl":
         t = s[1]
         return "%s%s %s%s;" % (ind, t, s[2], (" = " + ex_src(s[3])) if s[3] is not None else "")
+    if k == "passign":
+        return "%s(%s) = %s;" % (ind, s[1], ex_src(s[2]))
+    if k == "paassign":
+        return "%s(%s)[%s] = %s;" % (ind, s[1], ex_src(s[2]), ex_src(s[3]))
     if k == "assign":
         return "%s%s = %s;" % (ind, s[1], ex_src(s[2]))
     if k == "aassign":
